@@ -56,6 +56,10 @@ func main() {
 		os.Exit(1)
 	}
 	x := &extractor{fset: fset, files: files, info: info, pkg: pkg}
+	if len(os.Args) > 2 && os.Args[2] == "ir" {
+		fmt.Print(x.renderIR())
+		return
+	}
 	fmt.Print(x.render())
 }
 
